@@ -95,6 +95,7 @@ def check(ctx):
     oracle(ctx)
     failed_trial_probe(ctx)
     additive_object_parameter_probe(ctx)
+    substitution_sequence_probe(ctx)
 
 
 def oracle(ctx):
@@ -409,6 +410,69 @@ def additive_object_parameter_probe(ctx):
             if ga is None or float(ga.abs().max()) == 0.0 or (gc_ is not None and float(gc_.abs().max()) != 0.0):
                 ctx.fail("oracle", "%s:additive-object-parameter:%s" % (name, prod), {"operator": name, "product": prod},
                          {"d/da": None if ga is None else ga.tolist(), "d/dc": None if gc_ is None else gc_.tolist()}, "d/da non-zero, d/dc zero or absent")
+
+
+def substitution_sequence_probe(ctx):
+    """ONE Jacobian operator of a module's method with a non-differentiable argument among the params, over a sequence of parameter
+    substitutions through its public interface (uselinopparams): original, point replaced, original again, only the module's
+    parameter replaced - at every step mv / rmv / fullmatrix and ALL four products of .H (mv, rmv, mm, rmm) equal those of the dense
+    Jacobian at the parameters in force, and mv is differentiable w.r.t. the point (round-5 seeds C17/13: the argument list was only
+    rebuilt when the tensor arguments had changed identity; C17/14: AdjointLinearOperator._rmv called obj.rmv)"""
+    import xitorch as xt
+    from xitorch.grad import jac
+    g = torch.Generator().manual_seed(ctx.seed + 61)
+
+    class Mod(xt.EditableModule):
+        def __init__(self, a):
+            self.a = a
+
+        def __call__(self, x, c):
+            return torch.tanh(self.a * x) * c + x ** 2 + 0.3 * torch.roll(x, 1) * self.a
+
+        def getparamnames(self, methodname, prefix=""):
+            return [prefix + "a"]
+    fun = lambda a, x, c: torch.tanh(a * x) * c + x ** 2 + 0.3 * torch.roll(x, 1) * a
+    n = 4
+    a0 = torch.rand(n, dtype=DT, generator=g).requires_grad_()
+    x0 = torch.rand(n, dtype=DT, generator=g).requires_grad_()
+    c = torch.rand(n, dtype=DT, generator=g) + 0.5
+    op = jac(Mod(a0), (x0, c), idxs=0)
+    W = torch.randn(2, n, dtype=DT, generator=g)
+    Wc = torch.randn(n, 3, dtype=DT, generator=g)
+
+    def compare(label, a, x):
+        J = torch.autograd.functional.jacobian(lambda xx: fun(a.detach(), xx, c), x.detach())
+        with warnings.catch_warnings():
+            warnings.simplefilter("ignore")
+            errs = {"mv": op.mv(W) - W @ J.T, "rmv": op.rmv(W) - W @ J, "fullmatrix": op.fullmatrix() - J,
+                    "H.mv": op.H.mv(W) - W @ J, "H.rmv": op.H.rmv(W) - W @ J.T, "H.mm": op.H.mm(Wc) - J.T @ Wc,
+                    "H.rmm": op.H.rmm(Wc) - J @ Wc, "H.H.mv": op.H.H.mv(W) - W @ J.T}
+        ctx.count(("jac-substitution-sequence", label), nontrivial=True)
+        bad = {k: float(v.detach().abs().max()) for k, v in errs.items() if not float(v.detach().abs().max()) <= 1e-9}
+        if bad:
+            ctx.fail("oracle", "jac:substitution-sequence:%s" % sorted(bad)[0], {"step": label, "function": "EditableModule.__call__(x, c), c without grad",
+                                                                                  "sequence": "original; point replaced; original; module parameter replaced"},
+                     bad, "the products of the dense Jacobian at the parameters in force")
+    try:
+        p0 = op.getlinopparams()
+        compare("original", a0, x0)
+        x1 = (x0.detach() + 1.0).requires_grad_()
+        with op.uselinopparams(*[x1 if p is x0 else p for p in p0]):
+            compare("point replaced", a0, x1)
+        compare("original again", a0, x0)
+        a1 = (a0.detach() * 2 + 0.3).requires_grad_()
+        with op.uselinopparams(*[a1 if p is a0 else p for p in p0]):
+            compare("module parameter replaced", a1, x0)
+            w = torch.randn(n, dtype=DT, generator=g)
+            gx, = torch.autograd.grad(op.mv(w).sum(), x0, allow_unused=True)
+            _, jw = torch.autograd.functional.jvp(lambda xx: fun(a1, xx, c), x0, w, create_graph=True)
+            gref, = torch.autograd.grad(jw.sum(), x0)
+            if gx is None or not float((gx - gref).abs().max()) <= 1e-9:
+                ctx.fail("oracle", "jac:substitution-sequence:grad-wrt-point", {"step": "module parameter replaced"},
+                         None if gx is None else float((gx - gref).abs().max()), "derivative of J(x) w w.r.t. x")
+        compare("original at the end", a0, x0)
+    except Exception as e:
+        ctx.fail("oracle", "jac:substitution-sequence:exception", {}, repr(e)[:300], "products of the operator")
 
 
 def search(ctx):
